@@ -5,6 +5,8 @@
 package arch
 
 //@ func GetInfo(name string) (*Info, error)   properties C07 C12 C19
+//@   deterministic C13
+//@   frame_props C13
 //@   ensures @ok {C07} result1 == nil ==> result0 != nil && len(result0.SyscallNames) > 0
 //@   ensures @err {C07} result1 != nil ==> result0 == nil
 //@   let key = ite(name == "", runtime.GOARCH, tolower(name))
@@ -14,6 +16,8 @@ package arch
 // invert: under the precondition (no two numbers with the same name) the result is the inverse map, whatever the
 // iteration order (the postcondition determines the result: deterministic).
 //@ func invert(in map[int]string) map[string]int   properties C12 C13
+//@   deterministic C13
+//@   determined
 //@   requires @injective {C12} forallk(a, in, forallk(b, in, has(in, a) && has(in, b) && in[a] == in[b] ==> a == b))
 //@   ensures @inverse {C12 C13} forallk(k, in, has(in, k) ==> has(result, in[k]) && result[in[k]] == k)
 //@   ensures @domain {C12 C13} forallk(s, result, has(result, s) ==> existsk(k, in, has(in, k) && in[k] == s))
